@@ -98,8 +98,8 @@ func (vc *VC) comment(s string) {
 
 // define names a term so later formulas stay small.
 func (vc *VC) define(hint string, t Term) Term {
-	if len(t.S) < 48 {
-		return t
+	if len(t.S) < 48 || strings.Contains(t.S, "?") {
+		return t // small, or mentions a bound variable
 	}
 	c := vc.fresh(hint, t.Sort)
 	vc.assume(Eq(c, t))
@@ -438,6 +438,9 @@ var emptyStr = MkStr(Term{"((as const (Array Int Int)) 0)", ArraySort(SInt)}, In
 
 // typeFacts asserts the invariants every well-typed Go value satisfies.
 func (ex *Exec) typeFacts(t Term, ty types.Type, st *State) {
+	if strings.Contains(t.S, "?") {
+		return // under a quantifier: the binder carries the range guard
+	}
 	if f := ex.typeFactTerm(t, ty, st); !f.IsTrue() {
 		ex.vc.assume(f)
 	}
